@@ -113,8 +113,11 @@ def phase(prop, tier, seed, report, specs, accept=None):
         else:
             cls = classify(r["error"])
             msg = r["error"]
-        if accept and not accept("miri", cls, spec["engine"], msg):
-            log("# Miri reports %s in engine %s, which belongs to another property; not reported here" % (cls, spec["engine"]))
+        # an oracle of the engine that failed under Miri is attributed like any other run; what
+        # Miri itself objects to (undefined behaviour inside the run) is always reported: a run
+        # that Miri stops explores nothing after that point, so it must never pass silently
+        if r["fails"] and accept and not accept("miri", cls, spec["engine"], msg):
+            log("# engine %s reports %s under Miri, which belongs to another property; not reported here" % (spec["engine"], cls))
             continue
         where = narrow(spec, seed, 0, plans, miri_seeds) or {"run": 0, "run_to": plans, "miri_seed": None}
         os.makedirs(os.path.join(REPLAYS, prop), exist_ok=True)
